@@ -87,12 +87,16 @@ CLAIMED = {
         "design": "DESIGN.md §7 C08",
     },
     "C09": {
-        "text": "PARTIAL. Rocq theorems over the converter model: C09_member (a container naming a pod in the table gets --pod-id-file %t/<pod service file stem>.pod-id, BindsTo=/After= the pod's service file, "
-                "and is recorded in the pod's start list exactly when StartWithPod is not off), C09_errors (non-.pod value and missing pod fail with errors carrying the value), C09_members_wired (a pod's [Unit] gains Wants= "
-                "and Before= for exactly the recorded services, in order), C09_slash_refuted (the repaired ServiceName-with-'/' mismatch). 'Exactly its starting members, no more and no fewer, whatever the numbers and names' over "
-                "whole runs is decided by the direct oracle (in-process and end to end) and whole-set correspondence of the Process model.",
-        "note": "Trusted: Coq kernel; the converter/process model; a container failing after the pod look-up stays recorded (modelled, and outside the oracle's generated cases).",
-        "technique": "machine-checked proof in Rocq (Coq 8.16) of the pod handlers over the converter model + direct oracle on pod/container sets + differential correspondence",
+        "text": "Rocq theorems over the whole-run model (parse, name table, sort by type priority, convert with the table threaded through) for arbitrary file contents: "
+                "C09_pods_want_exactly_their_members -- when a .pod unit is converted its service's Wants=/Before= are the user's own values followed by exactly the containers registered so far "
+                "(C09_members_spec, C09_registered_spec: converted -- or failed only in the final ExecStart store -- containers whose Pod= names this pod's file and that did not opt out), every container "
+                "precedes every pod in the run, and the service file name the pod's conversion returns is the one the table held from the start (C09_table_along_the_run: service names never change, container lists only "
+                "grow by registrations); C09_members_are_bound_to_their_pod -- a converted container naming Pod=p.pod has BindsTo=/After= that same service file name, --pod-id-file %t/<that name without .service>.pod-id, "
+                "and is registered unless StartWithPod is off; plus the handler-level facts C09_member, C09_errors, C09_members_wired and the repaired C09_slash_refuted.",
+        "note": "Trusted: Coq kernel; the converter/process model, tied to /repo by whole-set differential runs on generated pod/container populations and the direct oracle on implementation output "
+                "(in-process and end to end). A container whose final ExecStart store fails after the pod look-up stays recorded (possible only with a NUL in an argument; stated in C09_registered_spec).",
+        "technique": "machine-checked proof in Rocq (Coq 8.16): table-effect lemmas for all seven converters (errors carry a table only from the two with_tbl sites), invariants of the table along the run, "
+                     "composition over the sorted run + direct oracle on pod/container sets + differential correspondence",
         "design": "DESIGN.md §7 C09",
     },
     "C10": {
